@@ -273,7 +273,7 @@ func isBuildLine(doc string) bool {
 func gen(tier string, r *lib.Rand, emit func(string)) {
 	nrand, mapLen := 1500, 3
 	if tier == "thorough" {
-		nrand, mapLen = 40000, 4
+		nrand, mapLen = 120000, 4
 	}
 	pl := mkPools()
 
